@@ -501,9 +501,19 @@ fn check_caller(c: &CallerCase, st: &mut Stats) -> Verdict {
     let keys: Vec<String> = u.names.iter().chain(&u.symbols).chain(&u.aliases).map(|k| k.to_string()).collect();
     let key = &keys[c.key as usize % keys.len()];
     let (s, e) = (f64::from_bits(c.start_bits), c.end_bits.map(f64::from_bits));
-    let value = match e {
-        Some(e) => Value::Range { start: Number::Regular(s), end: Number::Regular(e) },
-        None => Value::Number(Number::Regular(s)),
+    // a seventh of the single-number cases start from a number that already is a fraction, as written in a
+    // recipe (`3/2`, `9 1/7`) or left by an earlier step: improper ones, other denominators, large whole parts
+    let fraction_input = e.is_none() && s > 0.0 && c.key % 7 == 3;
+    let (s, value) = if fraction_input {
+        let b = c.start_bits;
+        let n = Number::Fraction { whole: (b % 9) as u32, num: 1 + ((b >> 5) % 11) as u32, den: [2, 3, 4, 5, 7, 8, 16][((b >> 11) % 7) as usize], err: if (b >> 17) % 3 == 0 { 0.3 } else { 0.0 } };
+        (n.value(), Value::Number(n))
+    } else {
+        let value = match e {
+            Some(e) => Value::Range { start: Number::Regular(s), end: Number::Regular(e) },
+            None => Value::Number(Number::Regular(s)),
+        };
+        (s, value)
     };
     let mut q: ScaledQuantity = Quantity::new(value, Some(key.clone()));
     let before = q.clone();
@@ -516,8 +526,16 @@ fn check_caller(c: &CallerCase, st: &mut Stats) -> Verdict {
         3 => q.try_fraction(conv),
         _ => q.convert(target.as_str(), conv).is_ok(),
     });
-    if let Err(p) = r {
-        vbail!("c12.panic", "{before:?}.{what} panicked: {p}");
+    let done = match r {
+        Err(p) => vbail!("c12.panic", "{before:?}.{what} panicked: {p}"),
+        Ok(d) => d,
+    };
+    if fraction_input {
+        st.class("the input already is a fraction");
+        if !done {
+            // declined or failed: the input stays as it was written, nothing was claimed about it
+            return Ok(());
+        }
     }
     let Some(ru) = q.unit().and_then(|k| conv.find_unit(k)) else {
         return Ok(());
